@@ -10,14 +10,19 @@
 EXTENDS UnsyncCache, Json, IOUtils
 
 CONSTANTS CheckProps,   \* monitors to evaluate
-          LayerI        \* TRUE: also run Layer I conformance
+          LayerI,       \* TRUE: also run Layer I conformance
+          MaxInfo, SDev \* parameters of the concurrent cache's Layer I
+
+S == INSTANCE SyncCache WITH RLog <- 384, WLog <- 384, Flush <- 64, MaxRepeats <- 4, SBatch <- 500,
+                             Dev <- SDev
 
 M == INSTANCE Monitors
 
 Rec == ndJsonDeserialize(IOEnv.TRACE)
 
 VARIABLES l,      \* next line of the trace
-          s,      \* Layer I state
+          s,      \* Layer I state (single-threaded cache)
+          ss,     \* Layer I state (concurrent cache, sequential client)
           hs,     \* monitor state
           pre,    \* snapshot before the next event
           failed, \* monitors that already rejected an event of this behaviour
@@ -25,7 +30,7 @@ VARIABLES l,      \* next line of the trace
           bid,    \* id of the current behaviour
           stats   \* counters
 
-vars == <<l, s, hs, pre, failed, li, bid, stats>>
+vars == <<l, s, ss, hs, pre, failed, li, bid, stats>>
 
 DummyCfg == [kind |-> "unsync", cap |-> None, ttl |-> None, tti |-> None, weigher |-> FALSE,
              hconst |-> FALSE, hasher |-> "id", nkeys |-> NKeys]
@@ -36,7 +41,7 @@ CfgOf(e) == [kind |-> e.kind, cap |-> e.cap, ttl |-> e.ttl, tti |-> e.tti, weigh
 Stats0 == [events |-> 0, behaviours |-> 0, conform |-> 0, drift |-> 0,
            nt |-> [p \in CheckProps |-> 0], viol |-> [p \in CheckProps |-> 0]]
 
-Init == /\ l = 1 /\ s = UInit(DummyCfg) /\ hs = M!HInit(DummyCfg) /\ pre = M!EmptySnap
+Init == /\ l = 1 /\ s = UInit(DummyCfg) /\ ss = S!SInit(DummyCfg) /\ hs = M!HInit(DummyCfg) /\ pre = M!EmptySnap
         /\ failed = {} /\ li = "off" /\ bid = -1 /\ stats = Stats0
 
 \* the call recorded in event e, as Layer I reads it
@@ -58,6 +63,14 @@ SameResult(m, e) ==
 
 ULayerOps == {"Insert", "Get", "Contains", "Invalidate", "InvalidateAll", "InvalidateIf",
               "Iter", "Advance"}
+SLayerOps == {"Insert", "Get", "Contains", "Invalidate", "InvalidateAll", "Iter", "Advance", "Sync"}
+
+SProjRes(res) == [i \in DOMAIN res |-> [k |-> res[i].k, v |-> res[i].v, w |-> res[i].w,
+                                        la |-> res[i].la, lm |-> res[i].lm,
+                                        adm |-> res[i].adm, dirty |-> res[i].dirty]]
+SProjSnap(sn) == [res |-> SProjRes(sn.res), ao |-> sn.ao, wo |-> sn.wo, ec |-> sn.ec, ws |-> sn.ws,
+                  fq |-> sn.fq, on |-> sn.sk.on, aged |-> sn.sk.aged, va |-> sn.va,
+                  rlen |-> sn.rlen, wlen |-> sn.wlen]
 
 Bump(st, f) == [st EXCEPT ![f] = @ + 1]
 
@@ -71,9 +84,11 @@ Next ==
             /\ pre' = M!InitSnap(c)
             /\ failed' = {}
             /\ bid' = e.id
-            /\ IF LayerI /\ c.kind = "unsync" /\ c.hasher \in {"id", "const"} /\ c.nkeys = NKeys
-               THEN s' = UInit(c) /\ li' = "on"
-               ELSE s' = UInit(DummyCfg) /\ li' = "off"
+            /\ IF LayerI /\ c.hasher \in {"id", "const"} /\ c.nkeys = NKeys
+               THEN IF c.kind = "unsync"
+                    THEN s' = UInit(c) /\ ss' = S!SInit(DummyCfg) /\ li' = "on"
+                    ELSE s' = UInit(DummyCfg) /\ ss' = S!SInit(c) /\ li' = "son"
+               ELSE s' = UInit(DummyCfg) /\ ss' = S!SInit(DummyCfg) /\ li' = "off"
             /\ stats' = Bump(stats, "behaviours")
             /\ (l = Len(Rec) => PrintT(<<"STATS", ToJson(stats')>>))
        ELSE
@@ -85,9 +100,15 @@ Next ==
              r == UDo(s, OpOf(e))
              agrees == canStep /\ SameResult(r.ev, e) /\ ProjSnap(USnap(r.s)) = ProjSnap(e.snap)
                        /\ ~r.s.panic
-             drifted == li = "on" /\ ((canStep /\ ~agrees) \/ e.ev \in {"Panic", "Crash"})
+             \* the concurrent cache
+             canStepS == li = "son" /\ e.ev \in SLayerOps
+             rs == S!SDo(ss, OpOf(e))
+             agreesS == canStepS /\ SameResult(rs.ev, e) /\ SProjSnap(S!SSnap(rs.s)) = SProjSnap(e.snap)
+                        /\ rs.s.crash = ""
+             drifted == \/ li = "on" /\ ((canStep /\ ~agrees) \/ e.ev \in {"Panic", "Crash"})
+                        \/ li = "son" /\ ((canStepS /\ ~agreesS) \/ e.ev \in {"Panic", "Crash"})
              st1 == [stats EXCEPT !.events = @ + 1,
-                                  !.conform = IF agrees THEN @ + 1 ELSE @,
+                                  !.conform = IF agrees \/ agreesS THEN @ + 1 ELSE @,
                                   !.drift = IF drifted THEN @ + 1 ELSE @,
                                   !.nt = [p \in CheckProps |-> IF p \in nontriv THEN @[p] + 1 ELSE @[p]],
                                   !.viol = [p \in CheckProps |-> IF p \in rejecting THEN @[p] + 1 ELSE @[p]]]
@@ -97,6 +118,7 @@ Next ==
             /\ hs' = M!HUpdate(CheckProps, hs, pre, e)
             /\ pre' = IF M!IsOp(e) THEN e.snap ELSE pre
             /\ s' = IF canStep /\ agrees THEN r.s ELSE s
+            /\ ss' = IF canStepS /\ agreesS THEN S!Canon(rs.s) ELSE ss
             /\ li' = IF drifted THEN "off" ELSE li
             /\ bid' = bid
             /\ stats' = st1
